@@ -264,6 +264,9 @@ func loginFields(line string) (f []string, cut int) {
 			cut, _ = strconv.Atoi(t[4:])
 			continue
 		}
+		if t == "eof" { // the peer closes the connection right behind its last reply (see runLogin)
+			continue
+		}
 		f = append(f, t)
 	}
 	return
@@ -338,6 +341,14 @@ func runLogin(line string, timeout time.Duration) (*loginRun, bool) {
 	} else {
 		for _, m := range msgs {
 			mc.feed(packetize(m, cutsEvery(len(m), cutK), 4, 0))
+		}
+	}
+	if strings.HasSuffix(line, " eof") && !strings.Contains(line, " env:") {
+		// the replies are all there and the peer has gone: what was received counts — a login the server
+		// accepted succeeds although the transport's end is reported while the replies are being consumed
+		mc.end()
+		for i := 0; i < 200 && len(conn.VerifErrCh()) == 0; i++ {
+			time.Sleep(100 * time.Microsecond)
 		}
 	}
 	lerr := ch.Login(ctx, cfg)
@@ -607,6 +618,7 @@ func loginGen(tier string, rng *mrand.Rand, emit func(Case)) {
 		// announcement) cut every k bytes, k = 1..16 and some larger ones
 		for _, k := range []int{1, 2, 3, 4, 5, 6, 7, 8, 9, 10, 11, 12, 13, 14, 15, 16, 23, 64, 200} {
 			emitS("valid-cut", base.enc, 8, 12, append([]string{fmt.Sprintf("cut:%d", k)}, base.toks...))
+			emitS("valid-then-peer-closes", base.enc, 8, 12, append(append([]string{fmt.Sprintf("cut:%d", k)}, base.toks...), "eof"))
 			withEnv := append([]string{fmt.Sprintf("cut:%d", k)}, base.toks...)
 			withEnv = append(append(withEnv[:len(withEnv)-2:len(withEnv)-2], "env:2048"), base.toks[len(base.toks)-2:]...)
 			emitS("valid-cut-env", base.enc, 8, 12, withEnv)
